@@ -1264,12 +1264,31 @@ theorem write_inv {st : St} (inv : Inv lower st) (op : WOp) (ok : OpOK st op) : 
   · rename_i h; exact apply_inv lower inv op ok h
   · exact inv
 
+theorem write_kind_mem {st : St} {op : WOp} {ix' : Index} (h : ix' ∈ (st.write lower op).idxs) :
+    ∃ ix ∈ st.idxs, ix'.kind = ix.kind ∧ ix'.path = ix.path := by
+  unfold St.write at h
+  split at h
+  · simp only [St.apply, List.mem_map] at h
+    obtain ⟨ix, hix, rfl⟩ := h
+    exact ⟨ix, hix, rfl, rfl⟩
+  · exact ⟨ix', h, rfl, rfl⟩
+
 /-- a history of write batches -/
 def run (st : St) (ops : List WOp) : St := ops.foldl (St.write lower) st
 
 def HistOK : St → List WOp → Prop
   | _, [] => True
   | st, op :: rest => OpOK st op ∧ HistOK (st.write lower op) rest
+
+theorem run_kind_mem (ops : List WOp) : ∀ {st : St} {ix' : Index}, ix' ∈ (run lower st ops).idxs →
+    ∃ ix ∈ st.idxs, ix'.kind = ix.kind ∧ ix'.path = ix.path := by
+  induction ops with
+  | nil => intro st ix' h; exact ⟨ix', h, rfl, rfl⟩
+  | cons op ops ih =>
+    intro st ix' h
+    obtain ⟨ix1, h1, hk1, hp1⟩ := ih (st := st.write lower op) h
+    obtain ⟨ix, h0, hk0, hp0⟩ := write_kind_mem lower h1
+    exact ⟨ix, h0, hk1.trans hk0, hp1.trans hp0⟩
 
 /-- the freshly created shard -/
 def St.init (schema : List (List String × Kind)) (bolt : Bool) : St :=
